@@ -34,7 +34,7 @@ def RULE(tier):
             "gram numbers from {0,1,2,5,2^24-1} (every subset, 2 orders), i.e. gram numbers at and beyond the count; (e) reordering: for "
             "every byte position of every gram of the valid memos a mutated copy (lowest and highest bit flipped) delivered together "
             "with ALL intact grams in every one of the (n+1)! delivery orders (mutant ahead of the zeroth gram, ahead of its own "
-            "original, ...); (f) memo-id reuse: two 2-gram memos with the same memo id from two different signers, every delivery "
+            "original, ...); (f) memo-id reuse: two 2-gram memos (and a one-gram memo) with the same memo id from two different signers, every delivery "
             "sequence of length <= %d over their four grams (replays after completion, interleavings, mixtures); (g) a signer with a transferable vid signing with its original or "
             "a rotated key against receivers whose keep holds that key, the other key, a third key or no entry; hostile datagrams come "
             "from a (host, port) source as real UDP traffic does. Oracle: no "
@@ -271,7 +271,7 @@ def run_order(authic, code, curt, ng, gi, pos, val, pi):
     return ("order", None if ex is None else (ms.site_of(ex), type(ex).__name__), tuple(x == want for x in got)), viols
 
 
-REUSE_SRC = ("peerV:1", "peerA:2")
+REUSE_SRC = ("peerV:1", "peerA:2", "peerA:2")
 
 
 @lru_cache(maxsize=None)
@@ -282,7 +282,10 @@ def reuse_pool(code, curt):
     for who, tag in ((ms.ALICE, b"V"), (ms.MALLORY, b"A")):
         pool.append(ms.craft(code, 2, mid, tag + b"0", who, curt))
         pool.append(ms.craft(ms.PAIR[code], 1, mid, tag + b"1", who, curt))
-    originals = [("V0V1", ms.ALICE.vid if code in ms.SIGNED else None), ("A0A1", ms.MALLORY.vid if code in ms.SIGNED else None)]
+    # a fifth gram: a complete ONE-gram memo of the second signer under the same memo id (another count for that id)
+    pool.append(ms.craft(code, 1, mid, b"W0", ms.MALLORY, curt))
+    originals = [("V0V1", ms.ALICE.vid if code in ms.SIGNED else None), ("A0A1", ms.MALLORY.vid if code in ms.SIGNED else None),
+                 ("W0", ms.MALLORY.vid if code in ms.SIGNED else None)]
     return tuple(pool), originals
 
 
@@ -291,7 +294,7 @@ def run_reuse(authic, code, curt, seq):
     r = ms.receiver(authic)
     viols = []
     ex = ms.deliver(r, [(pool[i], REUSE_SRC[i // 2]) for i in seq])
-    names = ["V0", "V1", "A0", "A1"]
+    names = ["V0", "V1", "A0", "A1", "W0"]
     what = "two signers using one memo id, %s %s grams delivered in order %r (authic=%s)" % (code, "b2" if curt else "b64", [names[i] for i in seq], authic)
     judge_escape(ex, viols, what)
     got = [tuple(x) for x in r.inbox]
@@ -440,7 +443,7 @@ def run_job(job, tier, seed):
                     do([signer_key, keep_key, order], dict(code=job[2], curt=job[3], signer_key=signer_key, keep_key=keep_key, order=order))
     elif kind == "reuse":
         for n in range(1, (5 if tier == "quick" else 6) + 1):
-            for seq in product(range(4), repeat=n):
+            for seq in product(range(5), repeat=n):
                 do(list(seq), dict(code=job[2], curt=job[3], order=list(seq)))
     elif kind == "craft":
         for count, present, rev in craft_cases():
